@@ -29,61 +29,41 @@ pub(crate) fn c10_stub_format(_a: std::fmt::Arguments<'_>) -> String {
 /// every header field / slot read back from the page is non-constant for symex, so `insert` always explores
 /// `defragment` (BinaryHeap of symbolic length, memcpy of symbolic size) and `copy_within` becomes a memmove of
 /// symbolic length: a single `insert` into an empty page then runs out of memory (> 20 GB).
-const C10_ZH: BtreePageHeader = BtreePageHeader {
-    page_number: 0,
-    right_child: None,
-    next_sibling: None,
-    previous_sibling: None,
-    free_space_ptr: 0,
-    page_size: 0,
-    free_space: 0,
-    padding: 0,
-    num_slots: 0,
-};
-pub(crate) trait C10Mem {
-    fn zeroed() -> Self;
-}
 #[repr(C, align(4096))]
-pub(crate) struct C10BufA {
+pub(crate) struct C10Buf {
     hdr: BtreePageHeader,
-    slots: [u16; 8],
-    mid: [u8; C10_CAP - 16 - 640],
-    top: [[u32; 40]; 4],
+    // ONE member, rows of 64 bytes: CBMC keeps arrays of <= 64 elements field-sensitive (one SSA symbol per byte), so
+    // slot offsets and cell headers written by one operation are still constants when the next operation reads them.
+    // (Measured: a flat [u8; 4016] loses the constants after the first symbolic payload byte -> 38 M clauses for two
+    // inserts; two members (`rows` + `tail`) make every copy that crosses the member boundary a whole-object update
+    // -> symex > 300 s; u64 elements leave `effective_size` non-constant (shares a word with padding).)
+    // 64 x 64 = 4096 >= capacity 4016: the last 80 bytes lie beyond the page (the page is the first 4096 bytes).
+    data: [[u8; 64]; 64],
 }
-impl C10Mem for C10BufA {
+impl C10Buf {
     fn zeroed() -> Self {
-        C10BufA { hdr: C10_ZH, slots: [0; 8], mid: [0; C10_CAP - 16 - 640], top: [[0; 40]; 4] }
-    }
-}
-#[repr(C, align(4096))]
-pub(crate) struct C10BufB {
-    hdr: BtreePageHeader,
-    slots: [u16; 8],
-    mid: [u8; C10_CAP - 16 - 640],
-    top: [[u8; 64]; 10],
-}
-impl C10Mem for C10BufB {
-    fn zeroed() -> Self {
-        C10BufB { hdr: C10_ZH, slots: [0; 8], mid: [0; C10_CAP - 16 - 640], top: [[0; 64]; 10] }
-    }
-}
-#[repr(C, align(4096))]
-pub(crate) struct C10BufC {
-    hdr: BtreePageHeader,
-    w: [[u32; 64]; 15],
-    t: [u32; 44],
-}
-impl C10Mem for C10BufC {
-    fn zeroed() -> Self {
-        C10BufC { hdr: C10_ZH, w: [[0; 64]; 15], t: [0; 44] }
+        C10Buf {
+            hdr: BtreePageHeader {
+                page_number: 0,
+                right_child: None,
+                next_sibling: None,
+                previous_sibling: None,
+                free_space_ptr: 0,
+                page_size: 0,
+                free_space: 0,
+                padding: 0,
+                num_slots: 0,
+            },
+            data: [[0u8; 64]; 64],
+        }
     }
 }
 /// `<MemBlock<BtreePageHeader> as Allocatable>::alloc(id, 4096)` step by step (storage/core/buffer.rs:334-348 and
 /// MemBlock::new :81-84), the only difference being where the zeroed memory comes from (`buf` instead of
 /// `Global.allocate_zeroed`); `c10_alloc_equiv` checks that both constructions give the same page.
 /// The returned page must be `mem::forget`-ed (its Drop would deallocate `buf`).
-fn c10_page<B: C10Mem>(buf: &mut B, id: PageId) -> BtreePage {
-    assert!(mem::size_of::<B>() == C10_PS && mem::align_of::<B>() == C10_PS, "backing_memory_is_one_aligned_page");
+fn c10_page(buf: &mut C10Buf, id: PageId) -> BtreePage {
+    assert!(mem::size_of::<C10Buf>() >= C10_PS && mem::align_of::<C10Buf>() == C10_PS, "backing_memory_is_one_aligned_page");
     let size = C10_PS;
     assert!((BtreePage::MIN_SIZE..=BtreePage::MAX_SIZE).contains(&size), "alloc_accepts_4096");
     let raw = NonNull::slice_from_raw_parts(NonNull::from(buf).cast::<u8>(), size);
@@ -117,8 +97,12 @@ pub(crate) struct C10Cell {
     b1: u8,   // last payload byte
     lc: Option<PageId>,
 }
-fn c10_val() -> C10Cell {
-    C10Cell { len: 0, b0: kani::any(), fill: kani::any(), b1: kani::any(), lc: kani::any() }
+/// symbolic payload bytes and left child.  The *shape* of the left child (None / Some) is fixed per step: a
+/// symbolic Option tag ends up (niche) as the discriminant of the `io::Result<OwnedCell>` returned by remove/replace,
+/// symex then explores both arms of every `match` on it and the model's slot count stops being a constant.
+fn c10_val(some: bool) -> C10Cell {
+    let x: PageId = kani::any();
+    C10Cell { len: 0, b0: kani::any(), fill: kani::any(), b1: kani::any(), lc: if some { Some(x) } else { None } }
 }
 #[derive(Clone, Copy)]
 pub(crate) struct C10Model {
@@ -434,16 +418,13 @@ macro_rules! c10_seq {
 }
 macro_rules! c10_h {
     ($name:ident, $unwind:expr; $($ops:tt)*) => {
-        c10_h!($name, C10BufA, $unwind; $($ops)*);
-    };
-    ($name:ident, $buf:ty, $unwind:expr; $($ops:tt)*) => {
         #[kani::proof]
         #[kani::unwind($unwind)]
         #[kani::stub(std::fmt::format, c10_stub_format)]
         fn $name() {
             let sel: [u8; 6] = kani::any();
-            let v: [C10Cell; 6] = [c10_val(), c10_val(), c10_val(), c10_val(), c10_val(), c10_val()];
-            let mut buf = <$buf as C10Mem>::zeroed();
+            let v: [C10Cell; 6] = [c10_val(true), c10_val(false), c10_val(true), c10_val(false), c10_val(true), c10_val(false)];
+            let mut buf = C10Buf::zeroed();
             let mut p = c10_page(&mut buf, kani::any());
             let mut m = C10Model::new();
             let mut l = C10Laws::new();
@@ -469,7 +450,7 @@ c10_h!(c10_ops_ins8_ins24_ins120, 6; ins(8) ins(24) ins(120));
 c10_h!(c10_ops_ins1000_ins8_rem, 6; ins(1000) ins(8) rem);
 // @obl harness=c10_ops_ins24_ins120_rem_ins8 id=C10.page_ops[ins24,ins120,rem,ins8] tier=quick funcs="BtreeOps::insert,BtreeOps::remove" bounds="page 4096; two inserts, remove either, insert again at every index (space of the removed cell is not reused without defragment)" stubs="std::fmt::format"
 c10_h!(c10_ops_ins24_ins120_rem_ins8, 6; ins(24) ins(120) rem ins(8));
-// @obl harness=c10_ops_rep_same id=C10.page_ops[ins24,ins120,rep(same padded size)] tier=quick funcs="BtreeOps::replace" bounds="page 4096; cells of 24 and 120 bytes; replace either by a 24-byte cell resp. both by 20-byte (pads to 24): in-place path without size change when old is the 24-byte cell, shrink when old is the 120-byte cell is excluded -> see c10_find_rep_shrink" stubs="std::fmt::format"
+// @obl harness=c10_ops_rep_same id=C10.page_ops[ins24,ins120,rep(same_padded_size)] tier=quick funcs="BtreeOps::replace" bounds="page 4096; cells of 24 and 120 bytes; replace either by a 24-byte cell resp. both by 20-byte (pads to 24): in-place path without size change when old is the 24-byte cell, shrink when old is the 120-byte cell is excluded -> see c10_find_rep_shrink" stubs="std::fmt::format"
 c10_h!(c10_ops_rep_same, 6; push(24) push(24) rep(20));
 // @obl harness=c10_ops_rep_grow id=C10.page_ops[ins8,ins24,rep120] tier=quick funcs="BtreeOps::replace,BtreeOps::remove,BtreeOps::insert" bounds="page 4096; cells of 8 and 24 bytes in both orders; replace either by a 120-byte cell (remove + insert path)" stubs="std::fmt::format"
 c10_h!(c10_ops_rep_grow, 6; ins(8) ins(24) rep(120));
@@ -482,7 +463,3 @@ c10_h!(c10_ops_ins_needs_defrag, 6; push(2000) push(1000) rem ins(1000));
 // @obl harness=c10_ops_err_full id=C10.page_ops[push2000,push1000,ins1000=Err] tier=quick funcs="BtreeOps::insert,BtreeOps::defragment" bounds="page 4096; cells of 2000 and 1000 bytes, a third of 1000 bytes does not fit at any index: Err(StorageFull) after an internal defragment; page logically unchanged; then a 900-byte cell fits" stubs="std::fmt::format"
 c10_h!(c10_ops_err_full, 6; push(2000) push(1000) ins(1000) ins(900));
 
-c10_h!(c10_probe_a2, C10BufA, 6; ins(24) ins(13));
-c10_h!(c10_probe_b2, C10BufB, 6; ins(24) ins(13));
-c10_h!(c10_probe_c2, C10BufC, 6; ins(24) ins(13));
-c10_h!(c10_probe_a3, C10BufA, 6; ins(8) ins(24) ins(120));
